@@ -21,6 +21,9 @@ RULES = {
              'last_op_time reads the time field of the last whole record',
     'C12.b': 'ReplicateOpp::to_u8 and From<u8> are inverse on every variant',
     'C12.c': 'the query reads the live file and every rotated file; rotation renames; only the declutter clean-up removes rotated files',
+    'C12.e': 'the appender answers Ok only from a successful append: an Ok result is built only where the Ok edge of a call to the '
+             'record writer dominates (after a rotation the record is appended again to the fresh file, so the live file is never '
+             'left empty on a non-empty log and last_op_time stays the newest timestamp)',
     'C12.d': 'scan order: rotated files oldest first, live file last (later inserts override earlier labels)',
 }
 
@@ -160,6 +163,31 @@ def run(ck, m):
         okl = [w for w, s, bi, base in ll] == [8] and seek_ok
         ck.ob('C12.a', short(lb_.id), 'reads-time-of-last-record', okl,
               'last_op_time seeks to size - record size and reads the 8 byte time field' if okl else 'last_op_time layout %s' % ll, '%s:%s' % (lb_.file, lb_.line))
+    # ---- (e) success only from a successful append --------------------------------------------
+    for tb_ in tw:
+        wcalls = [bi for bi, t_ in tb_.calls() if callee(t_) == wb.id]
+        ok_edges = []
+        for wbi in wcalls:
+            for sbi, tm_, els, adt in core.enum_switches(tb_, wbi):
+                if adt == 'std::result::Result' and '0' in tm_:
+                    others = {x for k_, x in tm_.items() if k_ != '0'}
+                    ok_edges.append((tm_['0'], others))
+        # values returned directly from a writer call count as well
+        ret_direct = [r for r in core.place_origins(tb_, {'l': 0}, stop_at_calls=True) if r[0] == 'call' and r[1] in wcalls]
+        bad = []
+        for r in core.place_origins(tb_, {'l': 0}):
+            if r[0] == 'agg':
+                rv = tb_.blocks[r[1]]['s'][r[2]]['r']
+                if rv.get('variant') == 'Ok' and rv.get('adt') == 'std::result::Result':
+                    if not any(tb_.dominates(e, r[1]) and not any(tb_.dominates(o, r[1]) for o in oth) for e, oth in ok_edges):
+                        bad.append(tb_.loc(r[1]))
+        oke = bool(wcalls) and not bad and (bool(ok_edges) or bool(ret_direct))
+        ck.ob('C12.e', short(tb_.id), 'ok-only-after-successful-append', oke,
+              'every Ok answer of the appender follows a successful call of the record writer' if oke else
+              'the appender answers Ok at %s although no append succeeded on that path: after a rotation the fresh live file stays '
+              'empty, last_op_time reads 0 on a non-empty log and the node asks for a full synchronisation' % bad,
+              '%s:%s' % (tb_.file, tb_.line))
+    ck.floor('C12.e', len(tw), 1, 'appender functions (callers of the record writer)')
     # ---- (b) ---------------------------------------------------------------------------
     to_u8 = [b for b in P.user_bodies() if b.id.endswith('bo::ReplicateOpp::to_u8')]
     frm = [b for b in P.user_bodies() if 'ReplicateOpp as std::convert::From<u8>>::from' in b.id]
@@ -183,10 +211,55 @@ def run(ck, m):
     in_loop = [bi for bi in rc if any(bi in body for h, body in loops)]
     out_loop = [bi for bi in rc if bi not in in_loop]
     lists = [bi for bi, t in qb.calls() if 'entries_by_creation_date' in callee(t) or callee_decl(t) == 'std::fs::read_dir']
-    okc = len(in_loop) >= 1 and len(out_loop) >= 1 and bool(lists)
+    # every listed file is visited: the loop iterates the listing itself (element-preserving adaptors only) and, inside an
+    # iteration, the reader call is conditional only on the iterator's Some and on the ".op" suffix test
+    PRESERVE = ('std::ops::Deref::deref', 'std::ops::DerefMut::deref_mut', 'std::slice::iter', 'std::iter::IntoIterator::into_iter',
+                'std::iter::Iterator::map', 'std::iter::Iterator::rev', 'std::vec::Vec::iter', 'std::iter::Iterator::by_ref',
+                'std::iter::Iterator::cloned', 'std::iter::Iterator::collect', 'std::iter::Iterator::next')
+
+    def from_listing(bi, seen=None):
+        seen = seen or set()
+        if bi in seen:
+            return False
+        seen.add(bi)
+        if bi in lists:
+            return True
+        tt = qb.term(bi)
+        if callee_decl(tt) not in PRESERVE or not tt['args']:
+            return False
+        return any(r[0] == 'call' and from_listing(r[1], seen) for r in origins(qb, tt['args'][0], stop_at_calls=True))
+    whole = False
+    extra_conditions = []
+    for h, body in loops:
+        nexts = [bi for bi in body if qb.term(bi)['k'] == 'call' and callee_decl(qb.term(bi)) == 'std::iter::Iterator::next']
+        inside = [bi for bi in in_loop if bi in body]
+        if not nexts or not inside:
+            continue
+        if any(from_listing(x) for x in nexts):
+            whole = True
+        for x in sorted(body):
+            tx = qb.term(x)
+            if tx['k'] != 'switch' or not any(qb.dominates(x, r_) for r_ in inside):
+                continue
+            succ = [tb for _, tb in tx['targets']] + [tx['else']]
+            if all(any(r_ in qb.reach_from([s_], stop=lambda b_: b_ == h, include_start=True) for r_ in inside) for s_ in succ):
+                continue
+            okc_ = False
+            for r in origins(qb, tx['o'], stop_at_calls=True):
+                if r[0] == 'discr':
+                    okc_ = qb.blocks[r[1]]['s'][r[2]]['r']['adt'] == 'std::option::Option'
+                elif r[0] == 'call':
+                    ct = qb.term(r[1])
+                    okc_ = callee_decl(ct) == 'std::str::ends_with' and any(
+                        isinstance(core.const_str(q), str) and core.const_str(q).startswith('.') for q in origins(qb, ct['args'][1]))
+            if not okc_:
+                extra_conditions.append(qb.loc(x))
+    okc = len(in_loop) >= 1 and len(out_loop) >= 1 and bool(lists) and whole and not extra_conditions
     ck.ob('C12.c', short(qb.id), 'all-files-visited', okc,
           'the query reads the live file and, in a loop over the directory listing, every rotated file' if okc else
-          'reader calls: %d outside a loop, %d inside; directory listing: %s' % (len(out_loop), len(in_loop), bool(lists)), '%s:%s' % (qb.file, qb.line))
+          'reader calls: %d outside a loop, %d inside; directory listing: %s; the loop iterates the whole listing: %s; conditions other '
+          'than the file suffix that skip a listed file: %s — a rotated file that holds operations at or after `since` can be left unread'
+          % (len(out_loop), len(in_loop), bool(lists), whole, extra_conditions), '%s:%s' % (qb.file, qb.line))
     # rotation: the function that renames the live oplog file must not remove it
     rot = [b for b in P.user_bodies() if b.id.endswith('Oplog::get_log_file_append_mode')]
     if rot:
